@@ -601,6 +601,57 @@ def r14_5(rep: Report, mc: ast.FunctionDef, c2: str) -> None:
             rep.fail('R14.5', c2, key, msg, mc)
 
 
+def r14_10(rep: Report, idx: Index) -> None:
+    """R14.10  optional numeric fields announced by a flag: where the reader sets a field to None when its flag is
+    clear and reads an integer otherwise, 0 is a value and None is absence.  On the writer side every test
+    that decides whether the field is written, and every expression the flag is computed from, may ask
+    whether the field `is None` - never whether it is true (`1 if self.pts else 0` drops a splice at PTS 0)."""
+    n = 0
+    for rel in sorted(r for r in idx.by_rel if r.startswith(SCTE + '/')):
+        for cname, ci in idx.by_rel[rel].classes.items():
+            parse = next((m for m in ci.node.body if isinstance(m, ast.FunctionDef) and m.name == 'parse'), None)
+            encode = next((m for m in ci.node.body if isinstance(m, ast.FunctionDef) and m.name in ('encode', 'encode_fields')), None)
+            if parse is None or encode is None:
+                continue
+            optional: set[str] = set()
+            for br in ast.walk(parse):
+                if not isinstance(br, ast.If):
+                    continue
+                def reads(stmts):
+                    return {c.args[1].value for s_ in stmts for c in ast.walk(s_) if isinstance(c, ast.Call)
+                            and isinstance(c.func, ast.Attribute) and c.func.attr == 'read' and len(c.args) >= 2
+                            and isinstance(c.args[1], ast.Constant) and isinstance(c.args[0], ast.Constant)
+                            and isinstance(c.args[0].value, int)}
+                def nones(stmts):
+                    return {a.targets[0].slice.value for s_ in stmts for a in ast.walk(s_) if isinstance(a, ast.Assign)
+                            and isinstance(a.targets[0], ast.Subscript) and isinstance(a.targets[0].slice, ast.Constant)
+                            and isinstance(a.value, ast.Constant) and a.value.value is None}
+                optional |= (reads(br.body) & nones(br.orelse)) | (reads(br.orelse) & nones(br.body))
+            for field_ in sorted(optional):
+                n += 1
+                construct = f'{rel}::{cname}.{encode.name}'
+                bad = None
+                for x in ast.walk(encode):
+                    if isinstance(x, ast.Attribute) and x.attr == field_ and norm(x.value) == 'self' and isinstance(x.ctx, ast.Load):
+                        par = getattr(x, '_parent', None)
+                        if isinstance(par, ast.Compare) and len(par.ops) == 1 and isinstance(par.ops[0], (ast.Is, ast.IsNot)) \
+                                and isinstance(par.comparators[0], ast.Constant) and par.comparators[0].value is None:
+                            continue
+                        truthy = isinstance(par, (ast.If, ast.IfExp, ast.While)) and par.test is x \
+                            or isinstance(par, ast.BoolOp) or (isinstance(par, ast.UnaryOp) and isinstance(par.op, ast.Not)) \
+                            or (isinstance(par, ast.Call) and call_name(par) == 'bool')
+                        if truthy:
+                            bad = par
+                if bad is None:
+                    rep.ok('R14.10', construct, f'presence of {field_} decided by `is None`')
+                else:
+                    rep.fail('R14.10', construct, f'presence of {field_} decided by `is None`',
+                             f'`{short(bad, 60)}` decides by the truth of self.{field_} whether the field is present: the reader '
+                             f'returns None for an absent {field_} and an integer otherwise, so the value 0 is encoded as '
+                             '"not specified" and comes back as None', bad)
+    rep.extra['optional_numeric_fields'] = n
+
+
 def r14_8(rep: Report) -> None:
     """conversions of event times into the 90 kHz MPEG timebase (SCTE-35 PTS, break duration) multiply
     before they divide: `v * (MPEG_TIMEBASE // timescale)` is wrong for every timescale that does not
@@ -1024,6 +1075,7 @@ def analyse(rep: Report) -> None:
     rep.rule('R14.7', 'in-band events of a bounded schedule have ids below count', floor=1)
     rep.rule('R14.6', 'segment window end: duration of the served fragment, converted as one quantity', floor=2)
     rep.rule('R14.9', 'early exits of the in-band scheduler imply an empty segment window', floor=3)
+    rep.rule('R14.10', 'optional numeric SCTE-35 fields are present unless None (0 is a value)', floor=1)
     idx = Index(rep.repo, 'dashlive')
     rels = sorted(r for r in idx.by_rel if r.startswith(SCTE + '/')) + ['dashlive/mpeg/section_table.py']
     layout_rule(rep, idx, 'R14.1', rels, 12)
@@ -1036,3 +1088,4 @@ def analyse(rep: Report) -> None:
     r14_7(rep)
     r14_8(rep)
     r14_9(rep)
+    r14_10(rep, idx)
